@@ -20,7 +20,23 @@ def workload(rng, nthreads, per_thread, hv, dns_samples):
     for t in range(nthreads):
         for _ in range(per_thread):
             r = rng.random()
-            if r < 0.35 and hv:
+            if r < 0.12:
+                # frames whose next-protocol value has no decoder (and no registered allocator): unknown ethertypes / IP protocols
+                if rng.random() < 0.3:
+                    # IP-in-IP / IPv6-in-IP tunnels, a few levels deep
+                    inner = struct.pack('>HHHH', 1, 2, 12, 0) + bytes(4)
+                    proto = 17
+                    for lvl in range(rng.randrange(2, 6)):
+                        inner = struct.pack('>BBHHHBBH', 0x45, 0, 20 + len(inner), lvl, 0, 64, proto, 0) + bytes([10, 0, lvl, 1, 10, 0, lvl, 2]) + inner
+                        proto = 4
+                    lines.append('%d P IP %s' % (t, hx(inner)))
+                elif rng.random() < 0.5:
+                    b = bytes(6) + bytes([2, 0, 0, 0, 0, 1]) + struct.pack('>H', rng.choice([0x9000, 0xa000, 0x88b5, 0x1234]) + rng.randrange(4096)) + bytes(rng.randrange(256) for _ in range(20))
+                    lines.append('%d P EthernetII %s' % (t, hx(b)))
+                else:
+                    b = struct.pack('>BBHHHBBH', 0x45, 0, 40, 9, 0, 64, rng.choice([143, 144, 200, 201, 253]) + rng.randrange(3), 0) + bytes([10, 0, 0, 1, 10, 0, 0, 2]) + bytes(20)
+                    lines.append('%d P IP %s' % (t, hx(b)))
+            elif r < 0.35 and hv:
                 e, b = hv[rng.randrange(len(hv))]
                 if rng.random() < 0.3:
                     b = PC.mutate(rng, b)
